@@ -15,6 +15,7 @@ stdout: JSON list.
 """
 import json
 import os
+import re
 import signal
 import sys
 
@@ -199,34 +200,114 @@ def do_c20(case):
     return res
 
 
+KW_RE = re.compile(r"[^\d\W]\w*")
+WORD_RE = re.compile(r"\w")
+
+
+def kw_like(t):
+    m = KW_RE.match(t)
+    return bool(m and m.span() == (0, len(t)))
+
+
+def walk_model(root):
+    """all parsing expressions reachable from root (generic: works for node classes pegdump refuses)"""
+    seen, todo, out = set(), [root], []
+    while todo:
+        n = todo.pop()
+        if n is None or id(n) in seen:
+            continue
+        seen.add(id(n))
+        out.append(n)
+        todo.extend(list(getattr(n, "nodes", None) or []))
+        todo.append(getattr(n, "sep", None))
+    return out
+
+
+def keyword_literals(mm_plain):
+    """keyword-like string literals of the grammar = StrMatch texts of the parser model built WITHOUT autokwd"""
+    p = mm_plain._parser_blueprint
+    nodes = walk_model(p.parser_model) + (walk_model(p.comments_model) if getattr(p, "comments_model", None) is not None else [])
+    return sorted({n.to_match for n in nodes if isinstance(n, A.StrMatch) and isinstance(n.to_match, str) and kw_like(n.to_match)})
+
+
+def glued_keyword_matches(parser, text, kws):
+    """terminals of the parse tree that come from a keyword-like grammar literal (a StrMatch, or a regex built
+    FROM a literal: its regex source differs from its display text) and are immediately followed by a word
+    character (Python re \\w).  Needs only the Arpeggio parse tree, not the dump."""
+    out = []
+    kws = set(kws)
+
+    def walk(n):
+        if isinstance(n, A.NonTerminal):
+            for c in n:
+                walk(c)
+        elif isinstance(n, A.Terminal):
+            r = n.rule
+            lit = getattr(r, "to_match", None)
+            if isinstance(r, A.EndOfFile) or is_builtin(r) or not isinstance(lit, str):
+                return
+            if isinstance(r, A.RegExMatch) and getattr(r, "to_match_regex", None) == lit:
+                return            # a user regex, not a literal
+            if lit.lower() in {k.lower() for k in kws} if getattr(r, "ignore_case", False) else lit in kws:
+                e = n.position + len(n.value)
+                if e < len(text) and WORD_RE.match(text[e]):
+                    out.append([lit, n.position, text[e]])
+    tree = getattr(parser, "parse_tree", None)
+    if tree is not None:
+        walk(tree)
+    return out
+
+
+def run_light(mm, text, kws):
+    """outcome without a dump: model_from_str result + glued keyword terminals of the parse"""
+    p = mm._parser_blueprint.clone()
+    glued = None
+    try:
+        p.parse(text)
+        glued = glued_keyword_matches(p, text, kws)
+    except Timeout:
+        raise
+    except Exception:
+        pass
+    return {"model": load(mm, text), "glued": glued}
+
+
 def do_c21(case):
-    res = {"grammar_error": None, "dump_plain": None, "dump_kw": None, "runs": []}
+    res = {"grammar_error": None, "dump_plain": None, "dump_kw": None, "dump_error": None, "runs": [], "keywords": []}
     opts = dict(case.get("opts", {}))
     opts.pop("autokwd", None)
     try:
         signal.setitimer(signal.ITIMER_REAL, 10, 1)
         mm0 = metamodel_from_str(case["grammar"], autokwd=False, **opts)
         mm1 = metamodel_from_str(case["grammar"], autokwd=True, **opts)
-        d0 = pegdump.dump_metamodel(mm0)
-        d1 = pegdump.dump_metamodel(mm1)
+        kws = keyword_literals(mm0)
+        res["keywords"] = kws
         signal.setitimer(signal.ITIMER_REAL, 0)
     except Timeout:
         res["grammar_error"] = "Timeout"
-        return res
-    except pegdump.Unsupported as e:
-        signal.setitimer(signal.ITIMER_REAL, 0)
-        res["grammar_error"] = "Unsupported: %s" % e
         return res
     except Exception as e:
         signal.setitimer(signal.ITIMER_REAL, 0)
         res["grammar_error"] = "%s" % type(e).__name__
         return res
-    res["dump_plain"], res["dump_kw"] = annotate(d0), annotate(d1)
+    d0 = d1 = None
+    try:
+        d0 = pegdump.dump_metamodel(mm0)
+        d1 = pegdump.dump_metamodel(mm1)
+        res["dump_plain"], res["dump_kw"] = annotate(d0), annotate(d1)
+    except pegdump.Unsupported as e:
+        # the tie to the model is lost for this grammar; the property is still observed on the implementation
+        res["dump_error"] = "Unsupported: %s" % e
+        d0 = d1 = None
     for text in case["inputs"]:
         try:
             signal.setitimer(signal.ITIMER_REAL, 10, 1)
-            r0, _ = run_one(d0, mm0, text)
-            r1, _ = run_one(d1, mm1, text)
+            if d0 is not None:
+                r0, p0 = run_one(d0, mm0, text)
+                r1, p1 = run_one(d1, mm1, text)
+                r1["glued"] = glued_keyword_matches(p1, text, kws)
+            else:
+                r0, r1 = run_light(mm0, text, kws), run_light(mm1, text, kws)
             signal.setitimer(signal.ITIMER_REAL, 0)
             run = {"plain": r0, "kw": r1}
         except Timeout:
